@@ -15,7 +15,7 @@ use serde_json::{Value, json};
 
 #[cfg(feature = "k_naming")]
 mod k_naming;
-#[cfg(feature = "k_gen")]
+#[cfg(any(feature = "k_gen", feature = "k_valid"))]
 mod k_gen;
 #[cfg(feature = "k_path")]
 mod k_path;
@@ -33,6 +33,8 @@ mod k_enum;
 mod k_cache;
 #[cfg(feature = "k_disc")]
 mod k_disc;
+#[cfg(feature = "k_valid")]
+mod k_valid;
 
 pub type OpResult = Result<Value, String>;
 
@@ -61,6 +63,8 @@ fn dispatch(op: &str, input: &mut Value) -> OpResult {
     "enum" => k_enum::eval(op, input),
     #[cfg(feature = "k_cache")]
     "cache" | "share" => k_cache::eval(op, input),
+    #[cfg(feature = "k_valid")]
+    "valid" => k_valid::eval(op, input),
     _ => Err(format!("unknown-op:{op}")),
   }
 }
